@@ -95,6 +95,16 @@ macro_rules! impl_digest {
                 compressor.finalize_dirty()
             }
         }
+        /// Verification hook (only with `--cfg cryptocorrosion_verif`): read / overwrite the block counter.
+        #[cfg(cryptocorrosion_verif)]
+        impl $groestl {
+            pub fn verif_counter(&self) -> u128 {
+                self.block_counter as u128
+            }
+            pub fn verif_set_counter(&mut self, v: u128) {
+                self.block_counter = v as u64;
+            }
+        }
         impl Default for $groestl {
             fn default() -> Self {
                 Self::new_truncated($bits::U32 / 2)
@@ -143,6 +153,24 @@ pub struct Groestl224(Groestl256);
 impl Default for Groestl224 {
     fn default() -> Self {
         Groestl224(Groestl256::new_truncated(224))
+    }
+}
+#[cfg(cryptocorrosion_verif)]
+impl Groestl224 {
+    pub fn verif_counter(&self) -> u128 {
+        self.0.verif_counter()
+    }
+    pub fn verif_set_counter(&mut self, v: u128) {
+        self.0.verif_set_counter(v)
+    }
+}
+#[cfg(cryptocorrosion_verif)]
+impl Groestl384 {
+    pub fn verif_counter(&self) -> u128 {
+        self.0.verif_counter()
+    }
+    pub fn verif_set_counter(&mut self, v: u128) {
+        self.0.verif_set_counter(v)
     }
 }
 impl digest::BlockInput for Groestl224 {
